@@ -155,7 +155,7 @@ struct V : RecursiveASTVisitor<V> {
   bool VisitRecordDecl(RecordDecl *RD) {
     if (!RD->isCompleteDefinition()) return true;
     auto &SM = C.getSourceManager(); std::string f = SM.getFilename(SM.getExpansionLoc(RD->getLocation())).str();
-    if (f.find("/repo/") == std::string::npos) return true;
+    { const char *root = getenv("HTPFACTS_ROOT"); std::string r = root ? root : "/repo"; if (f.compare(0, r.size(), r) != 0) return true; }
     json::Object o; o["name"] = Ser::recname(RD); json::Array fs;
     for (auto *F : RD->fields()) { json::Object fo; fo["name"] = F->getNameAsString(); fo["t"] = F->getType().getCanonicalType().getAsString(); fs.push_back(std::move(fo)); }
     o["fields"] = std::move(fs); Recs.push_back(std::move(o)); return true;
